@@ -31,6 +31,10 @@ type C20Scenario struct {
 	LogRule   bool   `json:"log_rule"`   // a logging rule matches (RelevantOnly keep-files)
 	RespBody  bool   `json:"resp_body"`
 	StopAfter int    `json:"stop_after"` // early termination: number of API calls executed before Close (-1: all)
+	// body over the limit (BodyKind "over"): the request body limit, its action and the sizes of the successive writes
+	Limit       int    `json:"limit,omitempty"`
+	LimitAction string `json:"limit_action,omitempty"`
+	Chunks      []int  `json:"chunks,omitempty"`
 }
 
 func genC20Scenario(t *rapid.T) C20Scenario {
@@ -38,6 +42,26 @@ func genC20Scenario(t *rapid.T) C20Scenario {
 	s.BodyKind = rapid.SampledFrom([]string{"none", "small", "spill", "multipart", "multipart"}).Draw(t, "bodykind")
 	if s.BodyKind == "multipart" {
 		s.Files = rapid.IntRange(0, 3).Draw(t, "files")
+	}
+	if s.BodyKind == "small" && rapid.Bool().Draw(t, "over") {
+		// a body larger than the limit, arriving in several writes; in half of the cases one write ends exactly at the limit
+		s.BodyKind = "over"
+		s.Limit = rapid.IntRange(16, 64).Draw(t, "limit")
+		s.LimitAction = rapid.SampledFrom([]string{"Reject", "ProcessPartial"}).Draw(t, "limitaction")
+		if rapid.Bool().Draw(t, "exact") {
+			first := rapid.IntRange(1, s.Limit-1).Draw(t, "first")
+			s.Chunks = []int{first, s.Limit - first, rapid.IntRange(1, 20).Draw(t, "tail")}
+			if rapid.Bool().Draw(t, "onepiece") {
+				s.Chunks = []int{s.Limit, rapid.IntRange(1, 20).Draw(t, "tail2")}
+			}
+		} else {
+			rest := s.Limit + rapid.IntRange(1, 30).Draw(t, "excess")
+			for rest > 0 {
+				n := rapid.IntRange(1, rest).Draw(t, "chunk")
+				s.Chunks = append(s.Chunks, n)
+				rest -= n
+			}
+		}
 	}
 	s.KeepFiles = rapid.SampledFrom([]string{"Off", "Off", "On", "RelevantOnly"}).Draw(t, "keep")
 	s.Audit = rapid.Bool().Draw(t, "audit")
@@ -51,7 +75,15 @@ func genC20Scenario(t *rapid.T) C20Scenario {
 
 func (s *C20Scenario) conf(dir string) string {
 	var sb strings.Builder
-	fmt.Fprintf(&sb, "SecRuleEngine On\nSecRequestBodyAccess On\nSecResponseBodyAccess On\nSecResponseBodyMimeType text/plain\nSecRequestBodyLimit 100000\nSecRequestBodyInMemoryLimit 32\nSecUploadDir %s/upload\nSecUploadKeepFiles %s\n", dir, s.KeepFiles)
+	limit, action := 100000, "Reject"
+	if s.Limit > 0 {
+		limit, action = s.Limit, s.LimitAction
+	}
+	inMem := 32
+	if limit < inMem {
+		inMem = limit // the in-memory limit may not exceed the body limit
+	}
+	fmt.Fprintf(&sb, "SecRuleEngine On\nSecRequestBodyAccess On\nSecResponseBodyAccess On\nSecResponseBodyMimeType text/plain\nSecRequestBodyLimit %d\nSecRequestBodyLimitAction %s\nSecRequestBodyInMemoryLimit %d\nSecUploadDir %s/upload\nSecUploadKeepFiles %s\n", limit, action, inMem, dir, s.KeepFiles)
 	if s.Audit {
 		fmt.Fprintf(&sb, "SecAuditEngine On\nSecAuditLogParts ABCFHJKZ\nSecAuditLogFormat JSON\nSecAuditLogType %s\nSecAuditLog %s/audit/audit.log\nSecAuditLogStorageDir %s/audit\n", s.AuditType, dir, dir)
 	}
@@ -72,6 +104,15 @@ func (s *C20Scenario) request() (ctype string, body []byte) {
 		return "application/x-www-form-urlencoded", []byte("a=1&b=2")
 	case "spill":
 		return "application/x-www-form-urlencoded", []byte("a=" + strings.Repeat("S", 200))
+	case "over":
+		n := 0
+		for _, k := range s.Chunks {
+			n += k
+		}
+		if n < 3 {
+			n = 3
+		}
+		return "application/x-www-form-urlencoded", []byte("a=" + strings.Repeat("O", n-2))
 	case "multipart":
 		var sb strings.Builder
 		sb.WriteString("--bb\r\nContent-Disposition: form-data; name=\"a\"\r\n\r\nvalue\r\n")
@@ -186,12 +227,31 @@ func runScenario(s *C20Scenario, dir string) *C20Result {
 				if !more() {
 					return
 				}
+				if len(s.Chunks) > 0 {
+					// the connector keeps writing what it receives; it stops when told to (interruption or error)
+					off := 0
+					for _, k := range s.Chunks {
+						if off+k > len(body) {
+							k = len(body) - off
+						}
+						it, _, err := tx.WriteRequestBody(body[off : off+k])
+						off += k
+						if note(it, err) {
+							return
+						}
+					}
+					body = nil
+				}
 				// the body arrives in two writes: the first stays in memory, the second makes the buffer spill
 				cut := len(body)
 				if cut > 20 {
 					cut = 20
 				}
-				it, _, err := tx.WriteRequestBody(body[:cut])
+				var it *types.Interruption
+				var err error
+				if cut > 0 {
+					it, _, err = tx.WriteRequestBody(body[:cut])
+				}
 				if note(it, err) {
 					return
 				}
@@ -263,7 +323,11 @@ func runScenario(s *C20Scenario, dir string) *C20Result {
 		tx.ProcessURI("/second", "POST", "HTTP/1.1")
 		tx.AddRequestHeader("Content-Type", "application/x-www-form-urlencoded")
 		tx.ProcessRequestHeaders()
-		it, _, err := tx.WriteRequestBody([]byte("z=" + strings.Repeat("Z", 100)))
+		second := 102 // spills to disk with the default limits
+		if s.Limit > 0 {
+			second = s.Limit - 4 // stays under the small body limit of the over-limit scenarios
+		}
+		it, _, err := tx.WriteRequestBody([]byte("z=" + strings.Repeat("Z", second-2)))
 		if err != nil || (it != nil && s.Deny != 1) {
 			r.SecondNote = fmt.Sprintf("write: it=%v err=%v", it, err)
 		}
@@ -285,7 +349,7 @@ func runScenario(s *C20Scenario, dir string) *C20Result {
 		if s.Deny == 1 {
 			r.SecondOK = tx.IsInterrupted()
 		} else {
-			r.SecondOK = tracer && buf.Len() == 102 && r.SecondNote == ""
+			r.SecondOK = tracer && buf.Len() == second && r.SecondNote == ""
 			if !r.SecondOK && r.SecondNote == "" {
 				r.SecondNote = fmt.Sprintf("tracer=%v body=%d bytes", tracer, buf.Len())
 			}
@@ -327,8 +391,17 @@ func checkC20Early(s *C20Scenario) Result {
 		return res
 	}
 	if r.OpenFDs > r.BaseFDs {
-		res.Fail = failf("%d file descriptors open after Close, %d before the transaction%s", r.OpenFDs, r.BaseFDs, ctx)
-		return res
+		// descriptor counts of a long-running process also move for reasons of its own (finalizers, the runtime's
+		// poller): a leak of the transaction is deterministic, so it must show again in a second execution
+		runtime.GC()
+		dir2 := dir + "-again"
+		r2 := runScenario(s, dir2)
+		_ = os.RemoveAll(dir2)
+		if r2.OpenFDs > r2.BaseFDs {
+			res.Fail = failf("%d file descriptors open after Close, %d before the transaction (again in a second execution: %d / %d)%s", r.OpenFDs, r.BaseFDs, r2.OpenFDs, r2.BaseFDs, ctx)
+			return res
+		}
+		res.Labels = append(res.Labels, "fd-count-noise")
 	}
 	if !r.SecondOK {
 		res.Fail = failf("a clean transaction after the abandoned one does not behave normally: %s%s", r.SecondNote, ctx)
@@ -337,6 +410,22 @@ func checkC20Early(s *C20Scenario) Result {
 	if len(r.Errors) > 0 {
 		res.Fail = failf("errors without any injected fault: %v%s", r.Errors, ctx)
 		return res
+	}
+	if s.BodyKind == "over" && (s.StopAfter < 0 || s.StopAfter >= 4) {
+		// every byte was offered and the body is larger than the limit: an interruption, an error variable or an
+		// error-level log entry must say so
+		if !(r.Interrupted || r.ErrVars || r.DebugErrors > 0) {
+			res.Fail = failf("a request body of %v bytes against SecRequestBodyLimit %d (%s) was accepted without any sign: no interruption, no error variable, no log entry%s", s.Chunks, s.Limit, s.LimitAction, ctx)
+			return res
+		}
+		res.Labels = append(res.Labels, "body-over-limit:"+s.LimitAction)
+		sum := 0
+		for _, k := range s.Chunks[:len(s.Chunks)-1] {
+			sum += k
+			if sum == s.Limit {
+				res.Labels = append(res.Labels, "write-ends-exactly-at-limit")
+			}
+		}
 	}
 	res.Labels = append(res.Labels, "body:"+s.BodyKind, "keep:"+s.KeepFiles)
 	if s.StopAfter >= 0 {
@@ -348,7 +437,7 @@ func checkC20Early(s *C20Scenario) Result {
 	if r.Interrupted {
 		res.Labels = append(res.Labels, "interrupted")
 	}
-	res.NonTrivial = (s.BodyKind == "spill" || s.Files > 0) && (s.StopAfter >= 3 || s.StopAfter < 0)
+	res.NonTrivial = (s.BodyKind == "spill" || s.BodyKind == "over" || s.Files > 0) && (s.StopAfter >= 3 || s.StopAfter < 0)
 	return res
 }
 
